@@ -96,7 +96,7 @@ def labels_of(cfile):
 
 
 def cbmc_pipeline(ctx, job, cfile, vac):
-    base = os.path.splitext(cfile)[0] + (".vac" if vac else "")
+    base = os.path.splitext(cfile)[0]
     a, b = base + ".a.gb", base + ".b.gb"
     defs = " ".join("-D" + d for d in job.defines) + (" -DVACUITY" if vac else "")
     tmo = job.timeout or (1800 if ctx.thorough else 240)
@@ -212,7 +212,7 @@ def run_job(ctx, job):
     except X.ExtractionDrift as e:
         return [Obligation(prefix + "/*", UNDECIDED, "extract", 0, "extraction drift: %s" % e, bounded=job.bounded)], [], [], []
     lab = labels_of(cfile)
-    data, err, t, cmds = cbmc_pipeline(ctx, job, cfile, False)
+    data, err, t, cmds = cbmc_pipeline(ctx, job, cfile, bool(job.vacuity))
     backend = "cbmc-6.11/" + (job.backend.strip("-") if job.backend else "sat")
     if data is None:
         return [Obligation(prefix + "/*", UNDECIDED, backend, t, err, bounded=job.bounded)], descs, [], cmds
@@ -221,7 +221,10 @@ def run_job(ctx, job):
     cbase = os.path.basename(cfile)
     user = []
     lib_bad = []
+    probes = [r for r in results if "vacuity-reach" in r.get("description", "")]
     for r in results:
+        if r in probes:
+            continue
         loc = r.get("sourceLocation", {})
         f = os.path.basename(loc.get("file", ""))
         if f == cbase:
@@ -294,13 +297,8 @@ def run_job(ctx, job):
         obs.append(Obligation(prefix + "/*loopcontract", UNDECIDED, backend, 0, "no loop_invariant_step obligation: loop contract silently dropped", bounded=job.bounded))
     vac = []
     if job.vacuity:
-        d2, err2, t2, _ = cbmc_pipeline(ctx, job, cfile, True)
-        ok = False
-        if d2 is not None:
-            r2, _, _ = parse_results(d2)
-            probes = [r for r in r2 if "vacuity-reach" in r.get("description", "")]
-            ok = bool(probes) and all(r["status"] == "FAILURE" for r in probes)
-            vac = [("%s/vacuity:%s" % (prefix, r["property"]), r["status"] == "FAILURE") for r in probes]
+        # the reach probe `__CPROVER_assert(0)` placed after the requires must FAIL (assertions do not constrain the other obligations)
+        vac = [("%s/vacuity:%s" % (prefix, r["property"]), r["status"] == "FAILURE") for r in probes if r.get("sourceLocation", {}).get("function") == job.enforce or not job.enforce]
         if not vac:
             vac = [(prefix + "/vacuity", False)]
     return obs, descs, vac, cmds
